@@ -338,6 +338,76 @@ def run_pkg(ck, pkg, quick, replay_cases=None):
     return cases, nval, frames
 
 
+def run_hex(ck, quick):
+    """the hex layer of tokens.Unwrap/Validate: model hexdecode vs encoding/hex, and the call chain in the token sources."""
+    import re
+    rng = ck.rng
+    hfile = os.path.join(vf.HARNESS, "C27", "c27_util_test.go")
+    ok, binp = vf.go_test_build(ck.work, PKGS["util"], {PKGS["util"] + "/zz_verif_c27_test.go": hfile}, "c27_util.test")
+    if not ok:
+        return 0
+    texts = [b"", b"0", b"00", b"ff", b"FF", b"fF", b"0g", b"g0", b"0G", b" 00", b"00 ", b"0x00", b"00\n", b"\xff\xff", b"ff4547330",
+             b"FF454733", b"ff45473", b"@@", b"``", b"//", b"::", b"aF09", b"Af90zz", b"\x00\x00"]
+    while len(texts) < (150 if quick else 1500):
+        t = bytearray(rbytes(rng, rng.randint(0, 40)).hex().encode())
+        r = rng.random()
+        if r < 0.3:
+            t = bytearray(bytes(t).upper())
+        elif r < 0.5:
+            t = bytearray(c ^ 0x20 if 97 <= c <= 102 and rng.random() < 0.5 else c for c in t)
+        if t and rng.random() < 0.3:
+            t[rng.randrange(len(t))] = rng.choice(b"gGzZ /:@`\x00\x80\xff-_")
+        if t and rng.random() < 0.2:
+            del t[rng.randrange(len(t))]
+        texts.append(bytes(t))
+    res, log = harness(ck, binp, ["H %s" % hx(t) for t in texts], "h_util")
+    if res is None:
+        ck.violation("harness-run-util", "harness (hex) failed:\n" + log[-1500:], replay={"log": log[-3000:]}, found_input=False)
+        return 0
+    real = [unhx(r[2]) if r[1] == "ok" else None for r in res]
+    # oracle on the real decoder: what decodes re-encodes to the text up to letter case
+    for t, b in zip(texts, real):
+        if b is not None and b.hex().encode() != t.lower():
+            ck.violation("hex-decode", "hex.DecodeString(%r) = %s, which does not re-encode to the text" % (t, b.hex()),
+                         replay={"pkg": "hex", "cases": [{"data": t.hex(), "pw": "", "kind": "hex", "expect": None}]})
+    if not getattr(ck, "coq_broken", None):
+        pre = ["From Common Require Import Base.", "From Crypto Require Import Model Token.", "Open Scope N_scope.",
+               "Definition hcases : list (N * option N) := [",
+               ";\n".join("(%s, %s)" % (pk(t), "None" if b is None else "Some %s" % pk(b)) for t, b in zip(texts, real)), "].",
+               """Definition hbad (i : nat) (c : N * option N) : list nat :=
+  let t := unpack (fst c) in
+  let agree := match hexdecode t, snd c with
+               | Some b, Some r => N.eqb (pack b) r && str_eqb (map lower t) (hexencode b) | None, None => true | _, _ => false end in
+  if agree then [] else [i].
+Fixpoint idx {A} (f : nat -> A -> list nat) (i : nat) (l : list A) : list nat :=
+  match l with [] => [] | x :: r => f i x ++ idx f (S i) r end."""]
+        ok, r = vf.coq_eval(GROUP, ck.work, "cases_hex", "\n".join(pre), {"h": "idx hbad 0 hcases"})
+        if not ok:
+            ck.violation("correspondence-eval", "model evaluation failed (hex):\n%s" % r[-1500:], replay={"log": r[-3000:]}, found_input=False)
+        elif r["h"] and not ck.viol:
+            i = r["h"][0]
+            ck.violation("corr-hex", "model hexdecode and encoding/hex disagree on %r: real %s" % (texts[i], real[i]),
+                         replay={"pkg": "hex", "cases": [{"data": texts[i].hex(), "pw": "", "kind": "hex", "expect": None}]}, found_input=False)
+    # the call chain the token model transliterates
+    tdir = os.path.join(vf.REPO, "internal/language/tokens")
+    want = {"unwrap.go": [r"hex\.DecodeString\(tokenString\)", r"util\.Decrypt\(string\(b\), key\)", r"len\(j\) == 0"],
+            "validate.go": [r"hex\.DecodeString\(tokenString\)", r"util\.Decrypt\(string\(b\), key\)", r"len\(j\) == 0"],
+            "new.go": [r"util\.Encrypt\(string\(b\), getTokenKey\(\)\)", r"hex\.EncodeToString\(\[\]byte\(encryptedString\)\)"]}
+    for fn, pats in want.items():
+        src = open(os.path.join(tdir, fn)).read()
+        pos = 0
+        for pat in pats:
+            mm = re.search(pat, src[pos:])
+            if not mm:
+                if not ck.viol:
+                    ck.violation("token-chain", "internal/language/tokens/%s no longer has the step /%s/ (in order) that Crypto/Token.v "
+                                 "transliterates (hex decode -> util.Decrypt -> empty test); the oracle found no failing input" % (fn, pat),
+                                 replay={"file": fn, "pattern": pat}, found_input=False)
+                break
+            pos += mm.end()
+    return len(texts)
+
+
 def run(ck):
     quick = ck.tier == "quick"
     ck.cov["rule"] = ("per package (util = tokens/files, settings = profile values): real Encrypt outputs and harness-made older "
@@ -352,7 +422,8 @@ def run(ck):
               "keys are always 32 bytes, so aes.NewCipher/cipher.NewGCM do not fail (not modelled)")
     ck.trusted("harness/C27/*.go (in-package overlays; reference gcm.Open with Go's crypto on the slices the model predicts)",
                "props/C27.py generators, oracle and comparison", "correspondence evaluated by vm_compute in generated cases files")
-    ck.coq_stage(GROUP, theorems=["C27_roundtrip", "C27_only_honest", "C27_reject", "C27_old_refuted"])
+    ck.coq_stage(GROUP, theorems=["C27_roundtrip", "C27_only_honest", "C27_reject", "C27_token_roundtrip", "C27_token_reject",
+                                  "C27_decrypt_exact", "C27_old_refuted"])
     replay = None
     if ck.replay_file:
         replay = json.load(open(ck.replay_file))["replay"]
@@ -381,6 +452,11 @@ def run(ck):
         dist[pkg + ":real-accepts"] = sum(1 for c in cases if c.real != "err")
         for c in [c for c in cases if c.kind in ("genuine", "truncation", "byte-edit")][:3]:
             ck.sample({"pkg": pkg, "kind": c.kind, "data": c.data.hex()[:80], "real": c.real[:40]})
+    if replay is None or replay.get("pkg") == "hex":
+        nh = run_hex(ck, quick)
+        total += nh
+        nval += nh
+        dist["hex:token-strings"] = nh
     ck.cov["evaluations"] = total
     ck.cov["distinct_nontrivial"] = len(nontriv)
     ck.cov["traces_validated_against_impl"] = nval
